@@ -416,6 +416,7 @@ class Interp:
         self.module_names = module_names or set()
         self.fnname = fnname
         self.local_repr = {}  # local name -> f(ctx, value) -> value: representation chosen by the contract for that local
+        self.sym_unpack = False  # opt-in (contract.sym_unpack): unpack a sequence of symbolic length into a fixed number of targets by forking on its length
 
     # ------------------------------------------------------------ exceptions
     def exc_isa(self, name, target):
@@ -647,7 +648,7 @@ class Interp:
                 items = ops.iterate(self.ctx, v)
             except Unsupported:
                 # unpacking a sequence of symbolic length into a fixed number of targets: ValueError unless the lengths agree
-                if star or not (isinstance(v, Sym) and hasattr(v, 'seq_len') and hasattr(v, 'seq_at')):
+                if star or not self.sym_unpack or not (isinstance(v, Sym) and hasattr(v, 'seq_len') and hasattr(v, 'seq_at')):
                     raise
                 if not self.ctx.branch(v.seq_len(self.ctx) == len(t.elts)):
                     raise PyRaise('ValueError', note='unpack a sequence of another length into %d targets' % len(t.elts))
